@@ -239,7 +239,84 @@ pub fn gen_ops(r: &mut Rng, nblocks: usize, allow_clean: bool, snapshots: bool) 
     ops
 }
 
+/// C07: long epochs with the real difficulty adjustment; miners stamp blocks from a clock with
+/// skew, stalls and jumps, uncles at varying rates.
+pub fn generate_c07(seed: u64) -> Scenario {
+    let mut r = Rng::new(seed ^ 0xC07_0000);
+    let mut cfg = Cfg::default_small();
+    cfg.genesis_epoch_len = *r.pick(&[300u64, 350, 500, 800, 1000, 1800]);
+    cfg.epoch_duration_target = *r.pick(&[14_400u64, 14_400, 3_600, 28_800]);
+    cfg.permanent_difficulty = false;
+    cfg.halving_interval = r.range(1, 3);
+    cfg.median_count = *r.pick(&[11usize, 37]);
+    cfg.orphan_rate_target = *r.pick(&[(1u32, 40u32), (1, 20), (1, 10)]);
+    cfg.primary_epoch_reward = *r.pick(&[1_917_808_21917808u64, 1_000_000_00000007, 777_777_77777777]);
+    cfg.secondary_epoch_reward = *r.pick(&[613_698_63013698u64, 100_000_00000003]);
+    cfg.genesis_compact = *r.pick(&[0x2001_0000u32, 0x1f40_0000, 0x1e01_5555, 0x1d00_ffff]);
+    cfg.genesis_cells = vec![10_000 * SHANNONS; 4];
+    let budget = r.urange(cfg.genesis_epoch_len as usize + 40, (cfg.genesis_epoch_len as usize * 3 + 500).min(4300));
+    let mut tree: Vec<TreeOp> = Vec::new();
+    let mut ops: Vec<Op> = Vec::new();
+    let mut main_tip = 0usize; // block idx of the main tip
+    let mut main_parent = 0usize;
+    let mut uniq = 1u64;
+    let mut regime = 8_000u64;
+    let mut uncle_rate = 0u64; // per 1000 blocks
+    let mut made = 0usize;
+    while made < budget {
+        if made % (cfg.genesis_epoch_len as usize) == 0 || r.chance(1, 2000) {
+            // the miners' clock regime changes about once per epoch: mostly around the ideal pace
+            // (so that the unclamped branch of the formula runs), sometimes stalls, bursts, jumps
+            let ideal_ms = cfg.epoch_duration_target * 1000 / cfg.genesis_epoch_len;
+            regime = match r.below(10) {
+                0 => 1,
+                1 => *r.pick(&[900u64, 600_000, 3_600_000]),
+                _ => (ideal_ms * *r.pick(&[30u64, 55, 80, 95, 100, 110, 130, 180, 250]) / 100).max(1),
+            };
+            uncle_rate = *r.pick(&[0u64, 5, 15, 25, 25, 40, 80, 200]);
+        }
+        let want_uncle = main_tip != 0 && r.below(1000) < uncle_rate;
+        let mut pending_uncle = false;
+        if want_uncle {
+            // a sibling of the current main tip: candidate uncle for the next main block
+            let mut rec = gen_recipe(&mut r, uniq, false);
+            uniq += 1;
+            rec.uncles = 0;
+            rec.ts_delta = regime.max(1);
+            tree.push(TreeOp { parent: main_parent, recipe: rec });
+            made += 1;
+            pending_uncle = true;
+        }
+        let mut rec = gen_recipe(&mut r, uniq, false);
+        uniq += 1;
+        rec.ts_delta = if r.chance(1, 3000) { *r.pick(&[1u64, 3_600_000, 86_400_000]) } else { (regime / 2 + r.below(regime + 1)).max(1) };
+        rec.uncles = if pending_uncle { 2 } else { 0 };
+        rec.ext_extra = 0;
+        tree.push(TreeOp { parent: main_tip, recipe: rec });
+        made += 1;
+        main_parent = main_tip;
+        main_tip = tree.len(); // block idx = position in tree + 1
+        ops.push(Op::Deliver { b: main_tip });
+        if ops.len() % 60 == 0 {
+            ops.push(Op::Drain);
+        }
+    }
+    Scenario {
+        engine: "simnode".into(),
+        prop: "C07".into(),
+        seed,
+        cfg,
+        tree,
+        ops,
+        freezer: false,
+        store_caches: None,
+    }
+}
+
 pub fn generate(seed: u64, prop: &str) -> Scenario {
+    if prop == "C07" {
+        return generate_c07(seed);
+    }
     let mut r = Rng::new(seed ^ 0x51D0_0000);
     let cfg = gen_cfg(&mut r);
     let n = if prop == "C08" { r.urange(6, 24) } else { r.urange(8, 60) };
